@@ -486,6 +486,11 @@ class _ReStub:
             raise self.to_raise
         return self.pattern
 
+    def __getattr__(self, name):
+        # everything else (error, Pattern, flags ...) is the real module's
+        import re
+        return getattr(re, name)
+
 
 REGEX_SOURCES = ("'a+b'", 'x', '"q q"', '<<EOF\n^l$\nEOF\n', ':> a b  ')
 REGEX_VALUES = ('a+b', 'x', 'q q', '^l$\n', 'a b')
@@ -1004,21 +1009,7 @@ def k6_cli(i: int) -> bool:
     if c.get('oracle_bug'):
         exp = g.MISTAKE  # seeded oracle error: every mutant is claimed to be a mistake
     case, first, use_line = g.case_text(phase, text, act, use=use)
-    import os
-    if 'VSYM_DEBUG' in os.environ:
-        from exactly_lib.util import traceback_
-        import traceback
-
-        def tb():
-            x = traceback.format_exc()
-            with open(os.environ['VSYM_DEBUG'], 'a') as f:
-                f.write('TRACEBACK ' + x + '\n')
-            return x
-        traceback_.traceback_as_str = tb
     r = cli.run_cli(case)
-    if 'VSYM_DEBUG' in os.environ:
-        with open(os.environ['VSYM_DEBUG'], 'a') as f:
-            f.write('DEBUG %r %r %r\n%s\n%s\n' % (lo, r['rc'], r['exc'], text, r['stderr']))
     if not documented_outcome(r):
         return ob.post(False)
     ident, err = r['ident'], r['stderr']
@@ -1320,7 +1311,7 @@ def obligations(tier: str) -> List[Ob]:
                             % (lo, hi - 1, len(muts), len(g.BASES), [g.line_of(g.BASES[b][1])[:40] for b in bases][:6]),
                       timeout=1500, real=REAL_CLI, stubs=cli.STUBS, entry='MainProgram.execute([FILE]) past its argument parser: MainProgram.execute_test_case(settings).report(environment)',
                       outside=('mutants not in the catalogue; processes are not started (exit code 0, no output)',)))
-    obs.append(Ob(name='K6:seeded-oracle-error', fn='k6_cli', case=dict(level=0, range=(0, 6), oracle_bug=True), kernel='K6',
+    obs.append(Ob(name='K6:seeded-oracle-error', fn='k6_cli', case=dict(level=0, range=(0, 12), oracle_bug=True), kernel='K6',
                   selector=True, bound='seeded: every mutant is claimed to be a mistake', timeout=600, expect=ob.REFUTE))
     # ---- K7
     for lo, hi in _chunks(len(DOC_MISTAKES), 25):
